@@ -68,6 +68,30 @@ theorem C13_sync_rejects_coroutine_postcondition (o : Oracle) (kw : Kwargs) (c :
     | val v t => simp [ha, Ans.isCoro] at hc
     | raises e => simp [ha, Ans.isCoro] at hc
 
+/-- Class invariants are evaluated synchronously (also around `async def` methods): an invariant whose condition
+returns a coroutine is rejected with ValueError - it is never taken as truthy, never truth-tested. -/
+theorem C13_invariant_rejects_coroutine_condition (o : Oracle) (kw : Kwargs) (c : Contract) (cs : List Contract)
+    (hm : (missingNames c.mandatory kw).isEmpty = true)
+    (hc : (o.cond c.id).isCoro = true) :
+    (assertInvariants o kw (c :: cs)).out = .error (.valueErr (.coroCondOnSync c.id) none) ∧
+    (∀ ev ∈ (assertInvariants o kw (c :: cs)).trace, ev ≠ .boolTest c.id) := by
+  unfold assertInvariants evalInvariant selectConditionKwargs
+  simp only [hm, if_true, pure_bind']
+  cases ha : o.cond c.id with
+  | coro a =>
+    have hx : (do Res.emit (Event.cond c.id (kw.restrict c.args))
+                  (Res.raise (Raised.valueErr (ValueErrKind.coroCondOnSync c.id) none) : Res Bool)).out
+              = .error (Raised.valueErr (ValueErrKind.coroCondOnSync c.id) none) := by simp [Res.raise]
+    refine ⟨bind_out_of_err hx, ?_⟩
+    intro ev hev
+    rw [bind_trace_of_err hx] at hev
+    rw [emit_bind_trace] at hev
+    simp [Res.raise] at hev
+    subst hev
+    simp
+  | val v t => simp [ha, Ans.isCoro] at hc
+  | raises e => simp [ha, Ans.isCoro] at hc
+
 theorem C13_sync_rejects_coroutine_capture (o : Oracle) (kw : Kwargs) (acc : List (String × Id))
     (s : Snapshot) (ss : List Snapshot)
     (hm : (missingNames s.args kw).isEmpty = true)
